@@ -35,6 +35,7 @@ type Exec struct {
 	labelMemo  map[token.Pos]string
 	Returns    int
 	specEq     bool
+	curCallArgs []Value
 	ReplayArgs []TV
 	ReplayLen  []bool
 	ReplayFn   string
@@ -452,6 +453,15 @@ func (ex *Exec) step(st *State, fr *Frame, in ssa.Instruction, work *[]*State) {
 		if ps := posString(ex.P.SSA.Fset, x.Cond.Pos()); ps != "" {
 			st.Trace = append(st.Trace, ps+":T")
 			s2.Trace = append(s2.Trace, ps+":F")
+		} else {
+			tag := fmt.Sprintf("%s.b%d", fr.Fn.Name(), fr.Block.Index)
+			if ta, ok := x.Cond.(*ssa.Extract); ok {
+				if a, ok := ta.Tuple.(*ssa.TypeAssert); ok {
+					tag = "is(" + typeName(a.AssertedType) + ")"
+				}
+			}
+			st.Trace = append(st.Trace, tag+":T")
+			s2.Trace = append(s2.Trace, tag+":F")
 		}
 		st.assumeBranch(c)
 		ex.gotoBlock(st, fr, t)
